@@ -1,0 +1,24 @@
+//go:build verif
+
+// Package verifhook provides named synchronisation points for an external
+// verification harness (build tag "verif").
+package verifhook
+
+import "sync/atomic"
+
+var hook atomic.Value // of func(string)
+
+// Set installs the function Gate calls; pass nil to remove it.
+func Set(f func(name string)) {
+	if f == nil {
+		f = func(string) {}
+	}
+	hook.Store(f)
+}
+
+// Gate calls the installed hook, if any, with the name of the point reached.
+func Gate(name string) {
+	if f, ok := hook.Load().(func(string)); ok && f != nil {
+		f(name)
+	}
+}
